@@ -139,13 +139,25 @@ func runLapackCase(t *vlib.T, lm *lmethod, vals map[string]int) {
 			modes = []int{lwOpt, lwQuery}
 		}
 	}
-	for _, d := range deltas {
-		for _, mode := range modes {
-			e := &lenv{v: map[string]int{}}
-			for k, x := range vals {
-				e.v[k] = x
+	// scalar variants: the default values, then each quick-return value of each float scalar alone
+	variants := []map[string]float64{nil}
+	for _, a := range r.args {
+		for _, x := range a.fvals {
+			variants = append(variants, map[string]float64{a.name: x})
+		}
+	}
+	for iv, fv := range variants {
+		for id, d := range deltas {
+			if iv > 0 && id > 0 {
+				break // thin grid for the scalar variants: minimal leading dimensions, single faults only
 			}
-			lm.runBase(debugFailer{t}, e, d, mode, true, &st)
+			for _, mode := range modes {
+				e := &lenv{v: map[string]int{}, fv: fv}
+				for k, x := range vals {
+					e.v[k] = x
+				}
+				lm.runBase(debugFailer{t}, e, d, mode, iv == 0, &st)
+			}
 		}
 	}
 	t.Count("lapack_valid_calls", st.valid)
